@@ -30,6 +30,7 @@ CONSTANTS
   Kinds,              \* request kinds explored, subset of {"app","callback","logout"}
   Attacker,           \* TRUE: requests may carry any issued/forged cookie, state and code
   WriteCreatesAbsent, KeyedByIdOnly,
+  ClearAbsentFails,   \* TRUE: clearing the login state of an absent session reports an error (Redis), FALSE: succeeds (memory)
   Export              \* TRUE: print terminal behaviours as scenarios
 
 Sids  == 1..MaxSid
@@ -219,9 +220,11 @@ CbJwks(c, ok) ==
 CbClear(c) ==
   /\ pcs[c] = "cbClear"
   /\ store' = [store EXCEPT ![loc[c].sid] = IF @.ex THEN [@ EXCEPT !.auth = NoAuth] ELSE @]
-  /\ goto(c, "cbSetTok") /\ loc' = mark(c)
+  /\ IF ClearAbsentFails /\ ~store[loc[c].sid].ex
+     THEN Finish(c, "sessionError") /\ loc' = mark(c)          \* the named deviation of the Redis store
+     ELSE goto(c, "cbSetTok") /\ loc' = mark(c) /\ UNCHANGED out
   /\ Log(StepRec(c, "none", "", ""))
-  /\ UNCHANGED <<now, nextSid, nextTok, nextCode, codes, rtValid, minted, out, cookies, creator, removed, dead, faults, okLog, exLog>>
+  /\ UNCHANGED <<now, nextSid, nextTok, nextCode, codes, rtValid, minted, cookies, creator, removed, dead, faults, okLog, exLog>>
 
 Write(c) == [store EXCEPT ![loc[c].sid] =
                IF @.ex THEN [@ EXCEPT !.tok = loc[c].new]
